@@ -245,7 +245,9 @@ def run_session(cfg: Dict[str, Any]) -> Dict[str, Any]:
     if outpath.exists():
         outpath.unlink()
     settings = cfg.get('settings_obj')
-    if settings is None:
+    if cfg['boards'] is None:
+        settings = None          # the server deals 100 random boards itself
+    elif settings is None:
         settings = [BoardSetting(hands=make_hands(dl), dealer=Player(d + 1), vul=Vul(v + 1),
                                  board_id=bid_, dda=dda)
                     for (dl, d, v, bid_, dda) in cfg['boards']]
